@@ -19,8 +19,8 @@ def run(ctx):
     read_input(ctx, ['read.nopanic'])
     kernels(ctx)
     from ..scen_kernels2 import kernels2, kernels_fn
-    from ..scen_kernels2 import regex_kernels
-    regex_kernels(ctx)                   # extract_regex_group / match_regex against the regex crate's API contract: no panic for any group index
+    from ..scen_kernels2 import regex_kernels, parse_kernel
+    parse_kernel(ctx); regex_kernels(ctx)                   # extract_regex_group / match_regex against the regex crate's API contract: no panic for any group index
     kernels2(ctx); kernels_fn(ctx)       # the same runs decide panic-freedom of these functions (every MIR assert / unwrap / slice is a path)
     truncation(ctx)
     expr_nopanic(ctx)
